@@ -54,6 +54,12 @@ def raw_access(body):
 
 
 def run(ck, F, E):
+    # a string literal is a protected region that ends at the first double quote: its text is the source up to that quote, so
+    # whether a blank follows the closing quote cannot matter (an escape convention that peeks at the raw byte after the quote
+    # makes `"A" "B"` and `"A""B"` different programs) -- C14's rule, a necessary condition here as well
+    import framework
+    from props import C14
+    C14.string_text_rule(framework.Rekeyed(ck, "C14", "C12:PROTECTED"), F)
     # ---- (1) raw readers
     methods = [b for b in F.bodies.values() if b.crate == "abasic_core" and
                (b.self_adt == TOK or "tokenizer::Tokenizer as" in b.path) and b.kind == "AssocFn"]
